@@ -341,7 +341,6 @@ theorem importAsciiLine_ne_panic {E : Type} (A : Alg E) (varinfo : Nat) (slm : L
         · split at heq <;> simp at heq
         · simp at heq
       · rename_i rest' hrest
-        skip
         split
         · simp
         · rename_i varId rest2 _
